@@ -113,6 +113,23 @@ def build(tier: str) -> List[Cond]:
                     sym=[("mn", "int"), ("mx", "int")], pre=["mn >= 1", "mx >= 1"], timeout=t,
                     functions=["digestion.sequential_digest", "digestion.digest"],
                     bounds=f"n={n}, interior site sets fixed; min_len,max_len unbounded"))
+    # three and four stages: an intermediate fragment longer than max_len must still reach the later stages
+    n5 = 4 if tier == "quick" else 5
+    tot = 3 if tier == "quick" else 4
+    for n in range(2, n5 + 1):
+        ints = list(range(1, n))
+        subsets = [tuple(s) for r in range(len(ints) + 1) for s in itertools.combinations(ints, r)]
+        for k in (3, 4):
+            for stages in itertools.product(subsets, repeat=k):
+                if not stages[-1] or sum(map(len, stages)) > tot or (k == 4 and (tier == "quick" or not all(stages[1:]))):
+                    continue
+                conds.append(Cond(
+                    oid=f"O4/sequential{k}/n={n}/" + "/".join(f"s{i + 1}={','.join(map(str, st)) or '-'}" for i, st in enumerate(stages)),
+                    clause="sequential digest with k complete zero-missed stages == simultaneous digest (length bounds on final peptides only)",
+                    module="vf.h.c06", func="o4_sequential3", shape=dict(n=n, stages=stages, mn_none=False, mx_none=False),
+                    sym=[("mn", "int"), ("mx", "int")], pre=["mn >= 1", "mx >= 1"], timeout=t,
+                    functions=["digestion.sequential_digest", "digestion.digest"],
+                    bounds=f"n={n}, {k} stages with fixed interior site sets; min_len,max_len unbounded"))
     return conds
 
 
@@ -128,7 +145,7 @@ def run(tier: str, seed: int, only=None) -> Report:
                     "defines. 'Confirmed over all paths' = every path's z3 query unsat.",
         functions=FUNCS,
         bounds=("protein length n<=4 (quick) / n<=6 (thorough) for build_spans, all 2^(n-1) interior layouts + endpoint variants; "
-                "digest entry points n<=3/5; sequential n<=4/5; mc,min_len,max_len: all integers >=0/>=1/>=1"),
+                "digest entry points n<=3/5; sequential (2, 3 and, thorough, 4 stages) n<=4/5; mc,min_len,max_len: all integers >=0/>=1/>=1"),
         outside="the regex site finder (get_regex_match_indices / PROTEASES) is a C extension: modelled by stub S3 returning the shape's "
                 "site set; n beyond the bound; return types other than span (see C07); O4 excludes nothing (interior sites only)",
         assumptions=["S3: get_cleavage_sites returns an arbitrary fixed subset of [0,n] per rule (contract of the regex finder)",
